@@ -10,7 +10,9 @@ from .. import core, sx
 THEOREMS = ['C09.ofForm_eval', 'C09.ofForm_shape', 'C09.propagNeg_spec', 'C09.toCnf_spec', 'C09.toCnf_terminates',
             'C09.toClauses_spec', 'C09.resolvable_sound', 'C09.refutation_sound', 'C09.all_trivial_valid',
             'C09.saturation_complete', 'C09.prover_decides',
-            'C09.prover_translated', 'C09.prover_text_is_the_model', 'C09.prover_text_decides']
+            'C09.prover_translated', 'C09.prover_text_is_the_model', 'C09.prover_text_decides',
+            'C09.stage_proofs_translated', 'C09.stage_proofs_conj_form', 'C09.stage_proofs_propag_neg', 'C09.stage_proofs_cnf',
+            'C09.stage_proofs_clauses', 'C09.resolution_proof_conclusion', 'C09.prover_proof_conclusion_is_literal', 'C09.stage_data_is_the_data_slice']
 
 
 def all_forms(size, nv):
